@@ -218,6 +218,24 @@ def model_predict(node, q):
     return node.est.predict(q)
 
 
+def separable(spec):
+    """True if no step couples the components (VectorSpline2D does, by design)."""
+    if spec[0] == "vspline":
+        return False
+    if spec[0] in ("chain", "vector"):
+        return all(separable(s) for s in spec[1])
+    return True
+
+
+def component_spec(spec, i):
+    """The scalar composite that handles component i of a separable multi-component composite."""
+    if spec[0] == "vector":
+        return spec[1][i]
+    if spec[0] == "chain":
+        return ["chain", [component_spec(s, i) for s in spec[1]]]
+    return spec
+
+
 def build_composite(spec):
     import verde as vd
 
@@ -306,6 +324,21 @@ class History:
             self.close(_tup(got), _tup(want), ds, "composite-prediction", f"{where}: composite prediction differs from the sum of the separately fitted steps")
             if isinstance(got, tuple) != isinstance(want, tuple):
                 raise Violation("composite-prediction", f"{where}: prediction is {'a tuple' if isinstance(got, tuple) else 'an array'} but should be {'a tuple' if isinstance(want, tuple) else 'an array'}")
+        # 4'. no leak between components: with steps that treat the components separately (Vector, block
+        # reductions), component i of the composite is the scalar composite of the i-th parts fitted to
+        # data[i] with weights[i] only
+        if self.ncomp == 2 and separable(self.spec) and can_predict(self.spec) and all(np.all(np.isfinite(d)) for d in ds.data):
+            for i in range(2):
+                sspec = component_spec(self.spec, i)
+                sobj = build_composite(sspec)  # only walked for its structure (no VectorSpline2D inside)
+                try:
+                    node = model_fit(sspec, sobj, ds.coordinates, ds.data[i], None if ds.weights is None else ds.weights[i])
+                    want_i = model_predict(node, self.q)
+                except Exception:  # noqa: B902 - e.g. too few blocks for this component alone: no claim
+                    continue
+                got_i = _tup(obj.predict(self.q))[i]
+                self.close((got_i,), (want_i,), ds, "component-cross-talk", f"{where}: component {i} of the composite differs from the same steps applied to data[{i}], weights[{i}] alone (another component's data or weights leaked in)")
+            self.probe("component_independence_checked")
         # 3. each step, taken out of the composite, equals the model's clone fitted on what the previous step returned
         self.compare_steps(obj, model, ds, where, "step")
         # (the composite's own region_ is not part of C06's statement; a stale region_ after a refit is a
